@@ -5,6 +5,7 @@ import (
 	"go/ast"
 	"go/token"
 	"go/types"
+	"sort"
 	"strings"
 )
 
@@ -752,5 +753,553 @@ func runPathBytes(c *Ctx, transparent bool) {
 	}
 	if n == 0 {
 		c.Bad("json/none", token.NoPos, "found no JSON serialisation of the manifest in the live transfer code")
+	}
+}
+
+func init() {
+	Register(&Rule{
+		Name:  "R-CANCEL-OWNER",
+		Props: []string{"C09"},
+		Min:   1,
+		Doc: "a context is cancelled by the function that made it, not by a helper that runs more than once on it: in internal/ice, when `ctx, cancel := context.WithCancel/WithTimeout/WithDeadline(..)` is made in function F, " +
+			"no closure of F that F calls from two or more sites (or from inside a loop) calls or defers that cancel - the probing rounds of ProbeAndDial (direct, then relay) share one dial context, and a round that cancels it leaves the next round dead: " +
+			"all direct candidates fail, the relay is reachable, and the dialling side ends with no connection at all",
+		Run: runCancelOwner,
+	})
+}
+
+func runCancelOwner(c *Ctx) {
+	p := c.P
+	n := 0
+	for _, g := range p.FuncsIn("internal/ice") {
+		if strings.HasSuffix(p.Fset.Position(g.Pos()).Filename, "_test.go") {
+			continue
+		}
+		info := g.Info()
+		// cancel functions made here (not in nested literals)
+		var cancels []types.Object
+		InspectNoLits(g.Body, func(m ast.Node) bool {
+			as, ok := m.(*ast.AssignStmt)
+			if !ok || len(as.Lhs) != 2 || len(as.Rhs) != 1 {
+				return true
+			}
+			call, ok := ast.Unparen(as.Rhs[0]).(*ast.CallExpr)
+			if !ok || !(calleeIs(info, call, "context", "WithCancel") || calleeIs(info, call, "context", "WithTimeout") || calleeIs(info, call, "context", "WithDeadline")) {
+				return true
+			}
+			if o := ObjOf(info, as.Lhs[1]); o != nil {
+				cancels = append(cancels, o)
+			}
+			return true
+		})
+		for _, co := range cancels {
+			n++
+			key := fmt.Sprintf("cancel/%s/%s", g.Name, co.Name())
+			bad := ""
+			var visit func(h *FuncInfo)
+			visit = func(h *FuncInfo) {
+				uses := false
+				InspectNoLits(h.Body, func(m ast.Node) bool {
+					if id, ok := m.(*ast.Ident); ok && h.Info().Uses[id] == co {
+						uses = true
+					}
+					return true
+				})
+				if uses && h != g && h.Var != nil {
+					// how often is h invoked?
+					sites, inLoop := 0, false
+					var stack []ast.Node
+					ast.Inspect(g.Body, func(m ast.Node) bool {
+						if m == nil {
+							stack = stack[:len(stack)-1]
+							return true
+						}
+						stack = append(stack, m)
+						if call, ok := m.(*ast.CallExpr); ok {
+							if id, ok := ast.Unparen(call.Fun).(*ast.Ident); ok && info.Uses[id] == types.Object(h.Var) {
+								sites++
+								for _, s := range stack {
+									switch s.(type) {
+									case *ast.ForStmt, *ast.RangeStmt:
+										inLoop = true
+									}
+								}
+							}
+						}
+						return true
+					})
+					if sites >= 2 || inLoop {
+						bad = fmt.Sprintf("%s (called from %d sites%s)", h.Name, sites, map[bool]string{true: ", in a loop", false: ""}[inLoop])
+					}
+				}
+				for _, k := range h.Kids {
+					visit(k)
+				}
+			}
+			visit(g)
+			c.Check(bad == "", key, co.Pos(), "the context is cancelled only by its maker or by helpers that run once",
+				"the cancel function "+co.Name()+" of a context made in "+g.Name+" is called or deferred inside "+bad+": after the first run the shared context is dead, so the next probing round (the relay candidates, tried when every direct candidate failed) fails at once with 'context canceled' although the peer is reachable - the dialling side gets no connection")
+		}
+	}
+	if n == 0 {
+		c.Bad("cancel/none", token.NoPos, "found no cancellable context in internal/ice")
+	}
+}
+
+func init() {
+	Register(&Rule{
+		Name:  "R-LOCK-BALANCE",
+		Props: []string{"C11", "C10", "C12", "C14"},
+		Min:   20,
+		Doc: "no return leaves a mutex locked: in internal/peers, internal/session, cmd/thruserv and the host scheduler of internal/app, at every return statement (and at the end of the body) no sync.Mutex / RWMutex is held that the function locked itself, " +
+			"unless its unlock is deferred in that function; locks already held at the function's entry (helpers called under the lock) are the caller's. A read lock leaked on an early return blocks the next writer (join, leave, close) for ever and every reader queues behind it",
+		Run: runLockBalance,
+	})
+}
+
+func runLockBalance(c *Ctx) {
+	p := c.P
+	ls := NewLockSpec()
+	n := 0
+	inScope := func(f *FuncInfo) bool {
+		if strings.HasSuffix(p.Fset.Position(f.Pos()).Filename, "_test.go") {
+			return false
+		}
+		switch {
+		case f.Pkg.PkgPath == RepoPkg("internal/peers"), f.Pkg.PkgPath == RepoPkg("internal/session"), f.Pkg.PkgPath == RepoPkg("cmd/thruserv"):
+			return true
+		case f.Pkg.PkgPath == RepoPkg("internal/app"):
+			return strings.HasPrefix(f.Root().Name, "app.(*SnapshotSender)")
+		}
+		return false
+	}
+	for _, f := range p.Funcs() {
+		if !inScope(f) {
+			continue
+		}
+		info := f.Info()
+		cfg := f.CFG()
+		// does f lock anything itself?
+		locks := false
+		InspectNoLits(f.Body, func(m ast.Node) bool {
+			if call, ok := m.(*ast.CallExpr); ok {
+				if _, op, ok := mutexOp(info, call); ok && (op == "Lock" || op == "RLock") {
+					locks = true
+				}
+			}
+			return true
+		})
+		if !locks {
+			continue
+		}
+		deferred := map[string]bool{}
+		InspectNoLits(f.Body, func(m ast.Node) bool {
+			if d, ok := m.(*ast.DeferStmt); ok {
+				if mu, op, ok := mutexOp(info, d.Call); ok {
+					switch op {
+					case "Unlock":
+						deferred["W:"+mu] = true
+					case "RUnlock":
+						deferred["R:"+mu] = true
+					}
+				}
+			}
+			return true
+		})
+		entry := map[string]bool{}
+		if len(cfg.Blocks) > 0 && len(cfg.Blocks[0].Nodes) > 0 {
+			for _, h := range HeldAny(ls, f, NodeRef{cfg.Blocks[0], 0}) {
+				entry[h] = true
+			}
+		}
+		k := 0
+		for _, b := range cfg.Blocks {
+			if !b.Live || len(b.Succs) != 0 || len(b.Nodes) == 0 {
+				continue
+			}
+			last := NodeRef{b, len(b.Nodes) - 1}
+			// facts after the last node: evaluate "before" a virtual successor by looking at the held set before the last node and
+			// applying that node's own unlocks / locks
+			held := map[string]bool{}
+			for _, h := range HeldAny(ls, f, last) {
+				held[h] = true
+			}
+			if _, isDefer := last.Node().(*ast.DeferStmt); !isDefer {
+				InspectNoLits(last.Node(), func(m ast.Node) bool {
+					if call, ok := m.(*ast.CallExpr); ok {
+						if mu, op, ok := mutexOp(info, call); ok {
+							switch op {
+							case "Unlock":
+								delete(held, "W:"+mu)
+							case "RUnlock":
+								delete(held, "R:"+mu)
+							case "Lock":
+								held["W:"+mu] = true
+							case "RLock":
+								held["R:"+mu] = true
+							}
+						}
+					}
+					return true
+				})
+			}
+			// a block that ends in a call that never returns (os.Exit, panic) is not an exit
+			if call, ok := lastCall(last.Node()); ok && !p.mayReturn(info, call) {
+				continue
+			}
+			var leaked []string
+			for h := range held {
+				if !entry[h] && !deferred[h] {
+					leaked = append(leaked, h)
+				}
+			}
+			k++
+			n++
+			key := fmt.Sprintf("balance/%s/exit#%d", f.Name, k)
+			sort.Strings(leaked)
+			c.Check(len(leaked) == 0, key, last.Node().Pos(), "no mutex locked here is still held at this exit",
+				"this exit of "+f.Name+" leaves "+strings.Join(leaked, ", ")+" locked (no deferred unlock): every later writer blocks for ever and, for an RWMutex, every reader queues behind it - the hub deadlocks for all sessions")
+		}
+	}
+	if n == 0 {
+		c.Bad("balance/none", token.NoPos, "found no function that takes a mutex")
+	}
+}
+
+func lastCall(n ast.Node) (*ast.CallExpr, bool) {
+	if es, ok := n.(*ast.ExprStmt); ok {
+		if call, ok := es.X.(*ast.CallExpr); ok {
+			return call, true
+		}
+	}
+	return nil, false
+}
+
+func init() {
+	Register(&Rule{
+		Name:  "R-BITMAP-INV",
+		Props: []string{"C15"},
+		Min:   2,
+		Doc: "the bitmap's invariant len(data) == (bits+7)/8 is established by every constructor: each composite literal of transfer.Bitmap gets a buffer that is make([]byte, (bits+7)/8), or a copy of peer-supplied bytes whose length was compared with that byte length by `!=` / `==` " +
+			"(exact) on every path - Get/Set bound their index by bits only, so a buffer shorter than the announced bit count (a hostile FileResumeInfo with the right TotalChunks and a 1-byte bitmap) makes the sender panic with an index out of range in a worker goroutine",
+		Run: runBitmapInv,
+	})
+}
+
+func runBitmapInv(c *Ctx) {
+	p := c.P
+	bt, _ := p.LookupObj("internal/transfer", "Bitmap").(*types.TypeName)
+	if bt == nil {
+		c.MissingAnchor("transfer.Bitmap")
+		return
+	}
+	n := 0
+	perFn := map[string]int{}
+	for _, f := range p.FuncsIn("internal/transfer") {
+		if strings.HasSuffix(p.Fset.Position(f.Pos()).Filename, "_test.go") {
+			continue
+		}
+		info := f.Info()
+		// byteLenOf: e is (B + 7) / 8 (possibly through a single-definition local); returns the text of B
+		byteLenOf := func(e ast.Expr) (string, bool) {
+			for _, d := range append([]ast.Expr{e}, resolveExprs(f, e, 1)...) {
+				be, ok := ast.Unparen(d).(*ast.BinaryExpr)
+				if !ok || be.Op != token.QUO {
+					continue
+				}
+				if v, ok := constInt(info, be.Y); !ok || v != 8 {
+					continue
+				}
+				add, ok := ast.Unparen(be.X).(*ast.BinaryExpr)
+				if !ok || add.Op != token.ADD {
+					continue
+				}
+				if v, ok := constInt(info, add.Y); ok && v == 7 {
+					return types.ExprString(StripConv(info, add.X)), true
+				}
+			}
+			return "", false
+		}
+		spec := &PassSpec{Name: "bitmap-exact", Vias: []Via{{Cond: func(g *FuncInfo, e ast.Expr) (string, bool, bool) {
+			be, ok := ast.Unparen(e).(*ast.BinaryExpr)
+			if !ok || (be.Op != token.NEQ && be.Op != token.EQL) {
+				return "", false, false
+			}
+			x, y := be.X, be.Y
+			lenOf := func(z ast.Expr) (string, bool) {
+				call, ok := ast.Unparen(z).(*ast.CallExpr)
+				if !ok || len(call.Args) != 1 {
+					return "", false
+				}
+				if id, ok := ast.Unparen(call.Fun).(*ast.Ident); ok && id.Name == "len" {
+					return types.ExprString(call.Args[0]), true
+				}
+				return "", false
+			}
+			lx, okx := lenOf(x)
+			if !okx {
+				lx, okx = lenOf(y)
+				x, y = y, x
+			}
+			if !okx {
+				return "", false, false
+			}
+			bits, ok := byteLenOf(y)
+			if !ok {
+				return "", false, false
+			}
+			return "exact:" + lx + "|" + bits, be.Op == token.EQL, true
+		}}}}
+		f.CFG().EachNode(func(r NodeRef) {
+			InspectNoLits(r.Node(), func(m ast.Node) bool {
+				cl, ok := m.(*ast.CompositeLit)
+				if !ok {
+					return true
+				}
+				if t := info.TypeOf(cl); t == nil || !types.Identical(t, bt.Type()) {
+					return true
+				}
+				var bitsE, dataE ast.Expr
+				for _, el := range cl.Elts {
+					if kv, ok := el.(*ast.KeyValueExpr); ok {
+						switch kv.Key.(*ast.Ident).Name {
+						case "bits":
+							bitsE = kv.Value
+						case "data":
+							dataE = kv.Value
+						}
+					}
+				}
+				n++
+				perFn[f.Name]++
+				key := fmt.Sprintf("ctor/%s#%d", f.Name, perFn[f.Name])
+				if bitsE == nil || dataE == nil {
+					c.Unknown(key, cl.Pos(), "Bitmap literal without keyed bits / data fields")
+					return true
+				}
+				bits := types.ExprString(StripConv(info, bitsE))
+				good := false
+				why := ""
+				for _, d := range append([]ast.Expr{dataE}, resolveExprs(f, dataE, 1)...) {
+					mk, ok := ast.Unparen(d).(*ast.CallExpr)
+					if !ok || len(mk.Args) != 2 {
+						continue
+					}
+					if id, ok := ast.Unparen(mk.Fun).(*ast.Ident); !ok || id.Name != "make" {
+						continue
+					}
+					size := mk.Args[1]
+					if b, ok := byteLenOf(size); ok && b == bits {
+						good = true
+						why = "make([]byte, (bits+7)/8)"
+					}
+					if call, ok := ast.Unparen(size).(*ast.CallExpr); ok && len(call.Args) == 1 {
+						if id, ok := ast.Unparen(call.Fun).(*ast.Ident); ok && id.Name == "len" {
+							src := types.ExprString(call.Args[0])
+							if spec.Passed(f, r, "exact:"+src+"|"+bits) {
+								good = true
+								why = "copy of " + src + " whose length was compared exactly with (bits+7)/8"
+							}
+						}
+					}
+				}
+				c.Check(good, key, cl.Pos(), "the buffer has exactly (bits+7)/8 bytes: "+why,
+					"a Bitmap is built with "+types.ExprString(dataE)+" for "+bits+" bits without establishing len(data) == ("+bits+"+7)/8 exactly (a `>` or `<` test lets a shorter buffer through): Get and Set bound the index by the bit count only, so a peer that announces the right chunk total with a too short bitmap makes the sender index past the buffer - a panic in a worker goroutine that takes the whole process down")
+				return true
+			})
+		})
+	}
+	if n == 0 {
+		c.Bad("ctor/none", token.NoPos, "found no constructor of transfer.Bitmap")
+	}
+}
+
+func init() {
+	Register(&Rule{
+		Name:  "R-TAIL-SATURATES",
+		Props: []string{"C17"},
+		Min:   1,
+		Doc: "the verify tail reaches back to chunk 0 when it is longer than what was received: the variable that becomes resumePlan.forceSendFrom is unsigned, so every `x -= t` on it is one branch of a saturating subtraction whose other branch (t >= x) sets x = 0 - " +
+			"without that branch a resume whose highest complete chunk index is smaller than the tail keeps forceSendFrom at verified+1, and the chunks inside the tail (present in the bitmap, to be sent again) are handed to no worker",
+		Run: runTailSaturates,
+	})
+}
+
+func runTailSaturates(c *Ctx) {
+	p := c.P
+	send := p.Func("transfer.SendManifestMultiStream")
+	if send == nil {
+		c.MissingAnchor("transfer.SendManifestMultiStream")
+		return
+	}
+	n := 0
+	perFn := map[string]int{}
+	for _, f := range allKids(send) {
+		info := f.Info()
+		// variables stored into resumePlan.forceSendFrom
+		vars := map[types.Object]bool{}
+		InspectNoLits(f.Body, func(m ast.Node) bool {
+			kv, ok := m.(*ast.KeyValueExpr)
+			if !ok {
+				return true
+			}
+			if k, ok := kv.Key.(*ast.Ident); ok && k.Name == "forceSendFrom" {
+				if o := ObjOf(info, kv.Value); o != nil {
+					vars[o] = true
+				}
+			}
+			return true
+		})
+		if len(vars) == 0 {
+			continue
+		}
+		// parent map for IfStmt lookup
+		var stack []ast.Node
+		ast.Inspect(f.Body, func(m ast.Node) bool {
+			if m == nil {
+				stack = stack[:len(stack)-1]
+				return true
+			}
+			if lit, ok := m.(*ast.FuncLit); ok && lit != f.Lit {
+				return false // statements of nested literals belong to those literals
+			}
+			stack = append(stack, m)
+			as, ok := m.(*ast.AssignStmt)
+			if !ok || as.Tok != token.SUB_ASSIGN || len(as.Lhs) != 1 || !vars[ObjOf(info, as.Lhs[0])] {
+				return true
+			}
+			x := ObjOf(info, as.Lhs[0])
+			t := types.ExprString(ast.Unparen(as.Rhs[0]))
+			n++
+			perFn[f.Name]++
+			key := fmt.Sprintf("saturate/%s#%d", f.Name, perFn[f.Name])
+			// nearest enclosing if
+			var is *ast.IfStmt
+			for i := len(stack) - 2; i >= 0 && is == nil; i-- {
+				if s, ok := stack[i].(*ast.IfStmt); ok {
+					is = s
+				}
+			}
+			zeroes := func(b ast.Node) bool {
+				hit := false
+				if b == nil {
+					return false
+				}
+				ast.Inspect(b, func(y ast.Node) bool {
+					if a2, ok := y.(*ast.AssignStmt); ok && a2.Tok == token.ASSIGN && len(a2.Lhs) == 1 && ObjOf(info, a2.Lhs[0]) == x {
+						if v, ok := constInt(info, a2.Rhs[0]); ok && v == 0 {
+							hit = true
+						}
+					}
+					return true
+				})
+				return hit
+			}
+			good := false
+			if is != nil {
+				be, ok := ast.Unparen(is.Cond).(*ast.BinaryExpr)
+				cmpOK := ok && (be.Op == token.GEQ || be.Op == token.LEQ || be.Op == token.GTR || be.Op == token.LSS) &&
+					((types.ExprString(ast.Unparen(be.X)) == t && ObjOf(info, be.Y) == x) || (types.ExprString(ast.Unparen(be.Y)) == t && ObjOf(info, be.X) == x))
+				inThen := as.Pos() >= is.Body.Pos() && as.End() <= is.Body.End()
+				if cmpOK {
+					if inThen {
+						good = zeroes(is.Else)
+					} else {
+						good = zeroes(is.Body)
+					}
+				}
+			}
+			c.Check(good, key, as.Pos(), "the subtraction is the non-saturated branch of `if t >= x { x = 0 } else { x -= t }`",
+				x.Name()+" -= "+t+" on the unsigned index that becomes resumePlan.forceSendFrom has no branch that sets it to 0 when "+t+" >= "+x.Name()+": with a tail longer than what was received the index stays at verified+1 and the chunks inside the tail, which the plan must send again, are given to no worker")
+			return true
+		})
+	}
+	if n == 0 {
+		c.Bad("saturate/none", send.Pos(), "found no tail subtraction on the variable that becomes resumePlan.forceSendFrom")
+	}
+}
+
+func init() {
+	Register(&Rule{
+		Name:  "R-READERS-MATCH",
+		Props: []string{"C03"},
+		Min:   1,
+		Doc: "the receiver reads every data stream the sender announced: the loop of RecvManifestMultiStream that starts the data-stream readers runs exactly DataStreams.Count times - every definition of its limit variable is the announced count (a conversion of the Count field), " +
+			"the constants 0 / 1 (not announced yet / the floor), or a copy of such a variable; a limit that is also cut by another quantity (files, a configured maximum) leaves announced streams unread, and the sender spreads one file's chunks over all its streams: those chunks never arrive, no FileDone, both sides wait",
+		Run: runReadersMatch,
+	})
+}
+
+func runReadersMatch(c *Ctx) {
+	p := c.P
+	recv := p.Func("transfer.RecvManifestMultiStream")
+	cnt, _ := p.LookupObj("internal/transfer", "DataStreams.Count").(*types.Var)
+	if recv == nil || cnt == nil {
+		c.MissingAnchor("transfer.RecvManifestMultiStream / DataStreams.Count")
+		return
+	}
+	info := recv.Info()
+	var okDef func(e ast.Expr, depth int) (bool, string)
+	okDef = func(e ast.Expr, depth int) (bool, string) {
+		e = StripConv(info, e)
+		if v, ok := constInt(info, e); ok && (v == 1 || v == 0) {
+			return true, "" // 0: not announced yet (the receiver loops while it is 0); 1: the floor
+		}
+		if sel, ok := e.(*ast.SelectorExpr); ok && info.Uses[sel.Sel] == cnt {
+			return true, ""
+		}
+		if o, ok := ObjOf(info, e).(*types.Var); ok && !o.IsField() && depth > 0 {
+			defs := allDefs(recv, o)
+			if len(defs) == 0 {
+				return false, types.ExprString(e)
+			}
+			for _, d := range defs {
+				if good, why := okDef(d, depth-1); !good {
+					return false, why
+				}
+			}
+			return true, ""
+		}
+		return false, types.ExprString(e)
+	}
+	n := 0
+	InspectNoLits(recv.Body, func(m ast.Node) bool {
+		fs, ok := m.(*ast.ForStmt)
+		if !ok {
+			return true
+		}
+		be, ok := ast.Unparen(fs.Cond).(*ast.BinaryExpr)
+		if !ok || (be.Op != token.LSS && be.Op != token.LEQ) {
+			return true
+		}
+		// a reader loop: a go statement whose literal accepts a stream
+		reader := false
+		ast.Inspect(fs.Body, func(x ast.Node) bool {
+			if g, ok := x.(*ast.GoStmt); ok {
+				ast.Inspect(g, func(y ast.Node) bool {
+					if call, ok := y.(*ast.CallExpr); ok {
+						if sel, ok := ast.Unparen(call.Fun).(*ast.SelectorExpr); ok && sel.Sel.Name == "AcceptStream" {
+							reader = true
+						}
+					}
+					return true
+				})
+			}
+			return true
+		})
+		if !reader {
+			return true
+		}
+		n++
+		good, why := okDef(be.Y, 3)
+		if be.Op == token.LEQ {
+			good, why = false, "a <= bound"
+		}
+		c.Check(good, fmt.Sprintf("readers/loop#%d", n), fs.Cond.Pos(), "one reader per announced data stream",
+			"the loop that starts the data-stream readers is bounded by "+types.ExprString(be.Y)+", which is not only the announced count (it also takes "+why+"): announced streams stay unread, the chunks the sender writes to them never arrive, the file is never finalised and both sides wait for ever (fewer files than streams, several connections)")
+		return true
+	})
+	if n == 0 {
+		c.Bad("readers/none", recv.Pos(), "found no loop starting data-stream readers in RecvManifestMultiStream")
 	}
 }
